@@ -20,11 +20,17 @@
 (* The reference is the one the property names: a side of the book is a    *)
 (* function from a finite set of prices to positive amounts.               *)
 (*                                                                         *)
+(* Several entries with the SAME price inside one level list: the book is  *)
+(* the price -> amount map of the list folded left to right, so the LAST   *)
+(* entry of a price wins (set-then-delete deletes, delete-then-set sets).  *)
+(* The code sorts the list by price before folding it; the sort must       *)
+(* therefore keep equal prices in list order (StableArrangement).          *)
 (* Deliberately nondeterministic (DESIGN 5.4) - and nothing else:          *)
-(*   * several entries with the SAME price inside one update: the code     *)
-(*     sorts with an unstable sort, so the relative order in which equal   *)
-(*     prices are applied is not fixed.  SortedArrangements is the set of  *)
-(*     all price-sorted permutations of the list; Update may use any.      *)
+(*   * lists LONGER than StableUpTo entries (cfg: 20): the code sorts with *)
+(*     sort_unstable_by, which is an insertion sort - order preserving -   *)
+(*     only up to 20 elements; beyond that the relative order in which     *)
+(*     equal prices are applied is not fixed, and Update may use any       *)
+(*     price-sorted permutation of the list (AllArrangements).             *)
 (* Environment assumption: snapshots carry distinct prices and positive    *)
 (* amounts (OrderBook::new neither de-duplicates nor filters) - CleanList. *)
 (* Not modelled: time_engine (the property does not mention it).           *)
@@ -36,7 +42,8 @@ CONSTANTS PRICE,     \* finite set of positive integers
           SEQS,      \* sequence numbers events may carry
           MaxLong,   \* MC only: longest level list of the "heavy" side of an update
           MaxShort,  \* MC only: longest level list of the other side
-          MaxSnap    \* MC only: longest level list per side of a snapshot
+          MaxSnap,   \* MC only: longest level list per side of a snapshot
+          StableUpTo \* longest level list whose equal prices are applied in list order (the code: 20)
 
 VARIABLES bids,      \* price -> amount (finite partial function on PRICE, amounts > 0)
           asks,      \* price -> amount
@@ -88,17 +95,37 @@ Arrange(list, I, side) ==
                                     ELSE CHOOSE x \in ps : \A y \in ps : x <= y
        IN UNION {{<<list[j]>> \o q : q \in Arrange(list, I \ {j}, side)} : j \in {k \in I : list[k].p = best}}
 
-SortedArrangements(list, side) == Arrange(list, DOMAIN list, side)
+AllArrangements(list, side) == Arrange(list, DOMAIN list, side)
+
+\* the order-preserving one: among the remaining entries of the best price, the earliest in the list
+RECURSIVE StableFrom(_, _, _)
+StableFrom(list, I, side) ==
+  IF I = {} THEN << >>
+  ELSE LET ps   == {list[j].p : j \in I}
+           best == IF side = "bids" THEN CHOOSE x \in ps : \A y \in ps : y <= x
+                                    ELSE CHOOSE x \in ps : \A y \in ps : x <= y
+           c    == {k \in I : list[k].p = best}
+           j    == CHOOSE k \in c : \A k2 \in c : k <= k2
+       IN <<list[j]>> \o StableFrom(list, I \ {j}, side)
+StableArrangement(list, side) == StableFrom(list, DOMAIN list, side)
+
+SortedArrangements(list, side) ==
+  IF Len(list) <= StableUpTo THEN {StableArrangement(list, side)} ELSE AllArrangements(list, side)
 
 ArrangementsOK(list, side) ==
-  SortedArrangements(list, side) =
+  /\ StableArrangement(list, side) \in AllArrangements(list, side)
+  /\ AllArrangements(list, side) =
     {q \in {[j \in DOMAIN list |-> list[f[j]]] : f \in Permutations(DOMAIN list)} : InSideOrder(q, side)}
 
 UpdateSide(m, list, side) == {Fold(m, q) : q \in SortedArrangements(list, side)}
 
 \* The same set, stated as the property states it (used as a cross-check, LastWins below): every
-\* price of the list ends as ONE of the entries given for it says; other prices are untouched.
-AmountsFor(list, p) == {list[j].a : j \in {k \in DOMAIN list : list[k].p = p}}
+\* price of the list ends as its LAST entry says (lists longer than StableUpTo: as one of its entries
+\* says); other prices are untouched.
+AmountsFor(list, p) ==
+  LET ks == {k \in DOMAIN list : list[k].p = p} IN
+  IF Len(list) <= StableUpTo THEN {list[CHOOSE k \in ks : \A k2 \in ks : k2 <= k].a}
+                             ELSE {list[j].a : j \in ks}
 Overwrite(m, c) ==       \* c : touched price -> final amount (0 = absent)
   [q \in ((DOMAIN m) \ {p \in DOMAIN c : c[p] = 0}) \cup {p \in DOMAIN c : c[p] # 0}
      |-> IF q \in DOMAIN c THEN c[q] ELSE m[q]]
